@@ -26,6 +26,7 @@ func checkC16(c *Ctx) {
 	c16State(c)
 	c16Gate(c)
 	c16TicketState(c)
+	c16LRU(c)
 	c15FinishedHash(c) // the resumed GMSSL handshake builds its transcript hash with newFinishedHash
 }
 
@@ -426,5 +427,164 @@ func c16TicketState(c *Ctx) {
 			}
 		}
 		c.Check(ok, rule, fname(f), "a resumed handshake restores the client chain from the ticket", "", "doResumeHandshake does not call processCertsFromClient(hs.sessionState.certificates)", f.Pos())
+	}
+}
+
+// c16LRU: the client session cache keeps its index consistent with its entries: an entry that is recycled for a new
+// server key is first removed from the index under its OLD key, and every index insertion maps the new key to an
+// entry that carries that key. (Otherwise a server key stays mapped to another server's ticket and master secret.)
+func c16LRU(c *Ctx) {
+	rule := "K-C16-lru"
+	f := c.Fn("gmtls", "(*lruSessionCache).Put")
+	if f == nil {
+		c.Missing(rule, "gmtls.(*lruSessionCache).Put", "method", "not found")
+		return
+	}
+	var keyParam *ssa.Parameter
+	for _, p := range f.Params {
+		if p.Name() == "sessionKey" {
+			keyParam = p
+		}
+	}
+	if keyParam == nil {
+		c.Undecided(rule, fname(f), "the key parameter", "not identified", f.Pos())
+		return
+	}
+	before := func(a, b ssa.Instruction) bool { // a is executed before b on every path to b
+		if a.Block() == b.Block() {
+			for _, in := range a.Block().Instrs {
+				if in == a {
+					return true
+				}
+				if in == b {
+					return false
+				}
+			}
+		}
+		return a.Block().Dominates(b.Block())
+	}
+	// stores that overwrite the key of an existing (not freshly allocated) entry
+	type over struct {
+		st    *ssa.Store
+		entry ssa.Value
+	}
+	var overs []over
+	keyStoredFrom := map[ssa.Value]ssa.Value{} // entry -> value stored as its key
+	instrsOf(f, func(_ *ssa.BasicBlock, in ssa.Instruction) {
+		st, ok := in.(*ssa.Store)
+		if !ok {
+			return
+		}
+		if fa, ok := st.Addr.(*ssa.FieldAddr); ok && fieldName(fa.X.Type(), fa.Field) == "sessionKey" {
+			keyStoredFrom[fa.X] = st.Val
+			if _, fresh := fa.X.(*ssa.Alloc); !fresh {
+				overs = append(overs, over{st, fa.X})
+			}
+			return
+		}
+		// *entry = lruSessionCacheEntry{...}
+		if strings.HasSuffix(st.Addr.Type().String(), "lruSessionCacheEntry") {
+			if _, fresh := st.Addr.(*ssa.Alloc); !fresh {
+				overs = append(overs, over{st, st.Addr})
+				if ld, ok := st.Val.(*ssa.UnOp); ok {
+					if tmp, ok := ld.X.(*ssa.Alloc); ok {
+						for _, r := range *tmp.Referrers() {
+							if fa, ok := r.(*ssa.FieldAddr); ok && fieldName(fa.X.Type(), fa.Field) == "sessionKey" {
+								for _, r2 := range *fa.Referrers() {
+									if s2, ok := r2.(*ssa.Store); ok && s2.Addr == fa {
+										keyStoredFrom[st.Addr] = s2.Val
+									}
+								}
+							}
+						}
+					}
+				}
+			}
+		}
+	})
+	var deletes []*ssa.Call
+	for _, ci := range allCalls(f) {
+		if call, ok := ci.(*ssa.Call); ok {
+			if bi, ok := call.Call.Value.(*ssa.Builtin); ok && bi.Name() == "delete" {
+				deletes = append(deletes, call)
+			}
+		}
+	}
+	if len(overs) == 0 {
+		c.Undecided(rule, fname(f), "recycling of the least recently used entry", "no store that re-keys an existing entry was found (the eviction path has another shape)", f.Pos())
+	}
+	for i, o := range overs {
+		c.Evals++
+		ok := false
+		for _, d := range deletes {
+			ld, isLd := d.Call.Args[1].(*ssa.UnOp)
+			if !isLd {
+				continue
+			}
+			fa, isFA := ld.X.(*ssa.FieldAddr)
+			if !isFA || fieldName(fa.X.Type(), fa.Field) != "sessionKey" || fa.X != o.entry {
+				continue
+			}
+			if before(ld, o.st) && before(d, o.st) {
+				ok = true
+			}
+		}
+		c.Check(ok, rule, fname(f), fmt.Sprintf("re-keying of an existing entry #%d is preceded by delete(index, its old key)", i+1), "", "an existing cache entry gets a new key without its old key having been removed from the index first (the key passed to delete is read after the overwrite, or nothing is deleted): the evicted server's key stays mapped to another server's session", o.st.Pos())
+	}
+	// index insertions
+	n := 0
+	instrsOf(f, func(_ *ssa.BasicBlock, in ssa.Instruction) {
+		mu, ok := in.(*ssa.MapUpdate)
+		if !ok {
+			return
+		}
+		n++
+		c.Evals++
+		// the entry behind the inserted element
+		var entry ssa.Value
+		switch v := mu.Value.(type) {
+		case *ssa.Call: // PushFront(entry)
+			if sc := v.Call.StaticCallee(); sc != nil && sc.Name() == "PushFront" && len(v.Call.Args) == 2 {
+				if mi, ok := v.Call.Args[1].(*ssa.MakeInterface); ok {
+					entry = mi.X
+				}
+			}
+		}
+		if entry == nil { // elem whose .Value was asserted to the entry type
+			instrsOf(f, func(_ *ssa.BasicBlock, in2 ssa.Instruction) {
+				ta, ok := in2.(*ssa.TypeAssert)
+				if !ok {
+					return
+				}
+				if ld, ok := ta.X.(*ssa.UnOp); ok {
+					if fa, ok := ld.X.(*ssa.FieldAddr); ok && fa.X == mu.Value && before(ta, mu) {
+						entry = ta
+					}
+				}
+			})
+		}
+		key := mu.Key
+		if ld, ok := key.(*ssa.UnOp); ok { // m[entry.sessionKey] read back after the key was stored
+			if fa, ok := ld.X.(*ssa.FieldAddr); ok && fieldName(fa.X.Type(), fa.Field) == "sessionKey" && fa.X == entry && keyStoredFrom[entry] != nil {
+				stored := false
+				for _, r := range *fa.X.Referrers() {
+					if fa2, ok := r.(*ssa.FieldAddr); ok && fa2.Field == fa.Field {
+						for _, r2 := range *fa2.Referrers() {
+							if st, ok := r2.(*ssa.Store); ok && st.Addr == fa2 && before(st, ld) {
+								stored = true
+							}
+						}
+					}
+				}
+				if stored {
+					key = keyStoredFrom[entry]
+				}
+			}
+		}
+		good := entry != nil && key == ssa.Value(keyParam) && keyStoredFrom[entry] == ssa.Value(keyParam)
+		c.Check(good, rule, fname(f), fmt.Sprintf("index insertion #%d maps the new key to an entry carrying that key", n), "", "the index is updated with a key/element pair whose entry does not carry that key", mu.Pos())
+	})
+	if n < 2 {
+		c.Undecided(rule, fname(f), "index insertions", fmt.Sprintf("only %d found", n), f.Pos())
 	}
 }
